@@ -56,7 +56,7 @@ typedef struct {
     int usepr_after;
     long heap_before, heap_after_destroy; int leak_blocks; char leak_desc[200];
     long bad_free;
-    long alloc_calls;
+    long alloc_calls; long calls_in_call; long mem_total_needed; int redzone_touched; int lu_outside_work; int threads_created;
     int xerbla_calls;
     /* gssvx extras */
     int equed; real_t R[NMAX], C[NMAX], rpg, rcond, ferr[3], berr[3];
@@ -119,6 +119,13 @@ void slu_mt_verif_ev(int kind, long a, long b, long c) {
     vf_slot_event(kind, a, b, c);
 }
 #endif
+/* fault injection: when > 0, allocation request number vf_arm_fail_k counted from the start of the library call(s) under test, and
+   (unless vf_arm_single) every later one, fails.  Armed only around the library calls, never around the harness's own set-up. */
+static long vf_arm_fail_k; static int vf_arm_single; static long vf_calls_in_call;
+static long vf_arm_base;
+static void vf_arm(void) { vf_arm_base = vf_alloc_calls; if (vf_arm_fail_k > 0) { vf_fail_from = vf_alloc_calls + vf_arm_fail_k; vf_fail_single = vf_arm_single; } }
+static void vf_disarm(void) { vf_calls_in_call = vf_alloc_calls - vf_arm_base; vf_fail_from = -1; vf_fail_single = 0; }
+#define VF_REDZONE 256
 static scalar_t *vf_tmp_scalars(int k) { return malloc(sizeof(scalar_t) * (k > 0 ? k : 1)); }
 
 /* Run one case.  T: the matrix; xtrue chosen internally; returns 0 (the run completed; see r->info). */
@@ -155,7 +162,7 @@ static int run_factor_case(const tmat_t *T, const fcfg_t *c, fres_t *r)
     SuperMatrix B, X, L, U, AC;
     memset(&L, 0, sizeof L); memset(&U, 0, sizeof U);
 
-    vf_heap_mark_t hm0 = vf_heap_mark(); long seq0 = vf_alloc_calls; long bf0 = vf_bad_free;
+    vf_heap_mark_t hm0 = vf_heap_mark(); long seq0 = vf_alloc_calls; long bf0 = vf_bad_free; long thr0 = vf_threads_created;
     r->heap_before = hm0.nlive;
 
     XCreate_Dense_Matrix(&B, n, nrhs, bmat, ldb, SLU_DN, SLU_DT, SLU_GE);
@@ -163,8 +170,8 @@ static int run_factor_case(const tmat_t *T, const fcfg_t *c, fres_t *r)
     int_t *perm_r = malloc(sizeof(int_t) * (n + 1)), *perm_c = malloc(sizeof(int_t) * (n + 1));
     for (int i = 0; i < n; i++) { perm_r[i] = c->forced ? c->force_pos[i] : -7; perm_c[i] = i; }
     int_t info = -999;
-    void *work = NULL;
-    if (c->lwork > 0) work = malloc(c->lwork);
+    void *work = NULL; unsigned char *workraw = NULL;
+    if (c->lwork > 0) { workraw = malloc(c->lwork + 2 * VF_REDZONE); memset(workraw, 0xA5, c->lwork + 2 * VF_REDZONE); work = workraw + VF_REDZONE; }
 
     superlumt_options_t opt; memset(&opt, 0, sizeof opt);
     Gstat_t Gstat; int have_gstat = 0, have_ac = 0, have_optarr = 0;
@@ -172,7 +179,7 @@ static int run_factor_case(const tmat_t *T, const fcfg_t *c, fres_t *r)
     if (c->driver == DRV_GSSV) {
         get_perm_c(c->ordering, &am.A, perm_c);
         memcpy(r->perm_c_in, perm_c, sizeof(int_t) * n);
-        pXgssv(c->nprocs, &am.A, perm_c, perm_r, &L, &U, &B, &info);
+        vf_arm(); pXgssv(c->nprocs, &am.A, perm_c, perm_r, &L, &U, &B, &info); vf_disarm();
     } else {
         opt.nprocs = c->nprocs; opt.fact = c->fact; opt.trans = c->trans; opt.refact = NO;
         opt.panel_size = c->w; opt.relax = c->relax; opt.diag_pivot_thresh = c->u; opt.drop_tol = 0;
@@ -185,12 +192,13 @@ static int run_factor_case(const tmat_t *T, const fcfg_t *c, fres_t *r)
         if (c->driver == DRV_GSSVX) {
             equed_t equed = NOEQUIL; superlu_memusage_t mu;
             real_t rpg = -1, rcond = -1;
-            pXgssvx(c->nprocs, &opt, &am.A, perm_c, perm_r, &equed, r->R, r->C, &L, &U, &B, &X, &rpg, &rcond, r->ferr, r->berr, &mu, &info);
+            vf_arm(); pXgssvx(c->nprocs, &opt, &am.A, perm_c, perm_r, &equed, r->R, r->C, &L, &U, &B, &X, &rpg, &rcond, r->ferr, r->berr, &mu, &info); vf_disarm();
+            r->mem_total_needed = (long)mu.total_needed;
             r->equed = equed; r->rpg = rpg; r->rcond = rcond;
         } else {
             StatAlloc(n, c->nprocs, c->w, c->relax, &Gstat); StatInit(n, c->nprocs, &Gstat); have_gstat = 1;
-            sp_colorder(&am.A, perm_c, &opt, &AC); have_ac = 1;
-            pXgstrf(&opt, &AC, perm_r, &L, &U, &Gstat, &info);
+            vf_arm(); sp_colorder(&am.A, perm_c, &opt, &AC); have_ac = 1;
+            pXgstrf(&opt, &AC, perm_r, &L, &U, &Gstat, &info); vf_disarm();
             if (info == 0) {
                 int_t info2 = 0;
                 Xgstrs(NOTRANS, &L, &U, perm_r, perm_c, &B, &Gstat, &info2);
@@ -202,7 +210,8 @@ static int run_factor_case(const tmat_t *T, const fcfg_t *c, fres_t *r)
     }
     r->info = (int)info;
     r->xerbla_calls = vf_xerbla_calls;
-    r->alloc_calls = vf_alloc_calls - seq0;
+    r->alloc_calls = vf_alloc_calls - seq0; r->calls_in_call = vf_calls_in_call; r->threads_created = (int)(vf_threads_created - thr0);
+    if (workraw) { for (long q = 0; q < VF_REDZONE; q++) if (workraw[q] != 0xA5 || workraw[VF_REDZONE + c->lwork + q] != 0xA5) r->redzone_touched = 1; }
     for (int i = 0; i < n; i++) { r->perm_r[i] = perm_r[i]; r->perm_c[i] = perm_c[i]; }
     r->a_changed = am_unchanged(&am);
     const scalar_t *sol = (c->driver == DRV_GSSVX) ? xmat : bmat;
@@ -223,6 +232,14 @@ static int run_factor_case(const tmat_t *T, const fcfg_t *c, fres_t *r)
             }
         }
     }
+    if (r->have_lu && c->lwork > 0 && info == 0) {
+        const SCPformat *Ls = L.Store; const NCPformat *Us = U.Store; const char *lo = work, *hi = (const char *)work + c->lwork;
+        long lmaxv = 0, lmaxr = 0, umax = 0; for (int j = 0; j < n; j++) { if (Ls->nzval_colend[j] > lmaxv) lmaxv = Ls->nzval_colend[j]; if (Ls->rowind_colend[j] > lmaxr) lmaxr = Ls->rowind_colend[j]; if (Us->colend[j] > umax) umax = Us->colend[j]; }
+        const void *ptrs[] = { Ls->nzval, Ls->nzval_colbeg, Ls->nzval_colend, Ls->rowind, Ls->rowind_colbeg, Ls->rowind_colend, Ls->col_to_sup, Ls->sup_to_colbeg, Ls->sup_to_colend, Us->nzval, Us->rowind, Us->colbeg, Us->colend };
+        long used[] = { lmaxv * (long)sizeof(scalar_t), n * (long)sizeof(int_t), n * (long)sizeof(int_t), lmaxr * (long)sizeof(int_t), n * (long)sizeof(int_t), n * (long)sizeof(int_t), n * (long)sizeof(int_t), (Ls->nsuper + 1) * (long)sizeof(int_t), (Ls->nsuper + 1) * (long)sizeof(int_t),
+                        umax * (long)sizeof(scalar_t), umax * (long)sizeof(int_t), n * (long)sizeof(int_t), n * (long)sizeof(int_t) };
+        for (unsigned q = 0; q < sizeof ptrs / sizeof ptrs[0]; q++) if (used[q] > 0 && ((const char *)ptrs[q] < lo || (const char *)ptrs[q] + used[q] > hi)) r->lu_outside_work = 1 + (int)q;
+    }
     r->slot_overflow = vf_slot.overflow; if (vf_slot.overflow) snprintf(r->slotmsg, sizeof r->slotmsg, "%s", vf_slot.msg);
 
     /* documented clean-up */
@@ -240,7 +257,7 @@ static int run_factor_case(const tmat_t *T, const fcfg_t *c, fres_t *r)
     r->leak_blocks = (int)(hm1.nlive - hm0.nlive);
     if (r->leak_blocks) vf_live_since(seq0, r->leak_desc, sizeof r->leak_desc);
     r->bad_free = vf_bad_free - bf0;
-    free(work); free(perm_r); free(perm_c); free(bmat); free(xmat); am_free(&am);
+    free(workraw); free(perm_r); free(perm_c); free(bmat); free(xmat); am_free(&am);
     return 0;
 }
 
